@@ -185,6 +185,14 @@ pub trait Elem: Sized + 'static {
   fn pay(&self) -> i64 {
     payload_of(self.id())
   }
+  /// how often T::clone has run (only the clone-observing class counts)
+  fn clone_calls() -> u64 {
+    if Self::NAME == "8x8k" {
+      K_CLONES.load(std::sync::atomic::Ordering::SeqCst)
+    } else {
+      u64::MAX
+    }
+  }
   /// MiniVec::<u8>::from(&str) exists for u8 only
   fn vec_from_str(_s: &str) -> Option<minivec::MiniVec<Self>> {
     None
@@ -313,3 +321,19 @@ def_elem!(E24x8, C24x8, "24x8", 24, 8, 4);
 def_elem!(E16x16, C16x16, "16x16", 16, 16, 4);
 def_elem!(E64x64, C64x64, "64x64", 64, 64, 4);
 def_elem!(E2048x8, C2048x8, "2048x8", 2048, 8, 4);
+
+/// 8x8k: Clone but not Copy, no Drop glue, and its clone is OBSERVABLE (a counter): a vector or
+/// iterator clone that copies the bits instead of calling T::clone is caught on this class
+#[repr(C, align(8))]
+pub struct K8x8 {
+  idb: [u8; 4],
+  pad: [u8; 4],
+}
+pub static K_CLONES: std::sync::atomic::AtomicU64 = std::sync::atomic::AtomicU64::new(0);
+impl Clone for K8x8 {
+  fn clone(&self) -> Self {
+    K_CLONES.fetch_add(1, std::sync::atomic::Ordering::SeqCst);
+    K8x8 { idb: self.idb, pad: self.pad }
+  }
+}
+def_elem!(@common K8x8, "8x8k", false, 8, 4);
